@@ -16,10 +16,18 @@
 //                       parameter's gradient is set to 1, reset_gradients(), those now 0
 //                       (err when reset_gradients throws); probes: update() and the
 //                       update_parameter calls it made
+//   sl src dst ws       Model::save(src, with_stats=ws) to a scratch file, then Model::load into dst
+//                       -> save-err | ok | err (load)
+//   pv                  every Parameter: `-` if invalid, else its first value word as an integer
+//                       (Parameter i is created with the constant i+1, so the value names the
+//                       record it was loaded from)
 // Names: `~` = empty string; paths: names joined by '/', `-` = empty list.
 // Objects are printed as pool ordinals, never addresses.
 #include <primitiv/primitiv.h>
+#include <unistd.h>
 #include <algorithm>
+#include <cstdio>
+#include <cstdlib>
 #include <map>
 #include <memory>
 #include "pvh.h"
@@ -45,6 +53,7 @@ static std::vector<std::unique_ptr<Optimizer>> opts;
 static std::map<const Parameter *, unsigned> pord;
 static std::map<const Model *, unsigned> mord;
 static unsigned nvalid;
+static std::string scratch_file;
 
 static std::string dec_name(const std::string &s) { return s == "~" ? std::string() : s; }
 static std::string enc_name(const std::string &s) { return s.empty() ? std::string("~") : s; }
@@ -91,7 +100,7 @@ static std::string eval(const std::vector<std::string> &t) {
     nvalid = u32(t.at(3));
     for (unsigned i = 0; i < nm; ++i) { models.emplace_back(new Model()); mord[models.back().get()] = i; }
     for (unsigned i = 0; i < np; ++i) {
-      if (i < nvalid) params.emplace_back(new Parameter(Shape({2}), initializers::Constant(1), *dev));
+      if (i < nvalid) params.emplace_back(new Parameter(Shape({2}), initializers::Constant(static_cast<float>(i + 1)), *dev));
       else params.emplace_back(new Parameter());
       pord[params.back().get()] = i;
     }
@@ -153,17 +162,36 @@ static std::string eval(const std::vector<std::string> &t) {
       }
       return "ok " + pr_set(reg);
     }
-    for (unsigned i = 0; i < params.size() && i < nvalid; ++i) params[i]->gradient().reset(1);
+    for (unsigned i = 0; i < params.size(); ++i) if (params[i]->valid()) params[i]->gradient().reset(1);
     opt.reset_gradients();
-    for (unsigned i = 0; i < params.size() && i < nvalid; ++i) {
-      if (params[i]->gradient().to_vector().at(0) == 0.0f) reg.push_back(i);
+    for (unsigned i = 0; i < params.size(); ++i) {
+      if (params[i]->valid() && params[i]->gradient().to_vector().at(0) == 0.0f) reg.push_back(i);
     }
     return "ok " + pr_set(reg);
+  }
+  if (f == "sl") {
+    const Model &src = *models.at(u32(t.at(1)));
+    Model &dst = *models.at(u32(t.at(2)));
+    bool ws = u32(t.at(3)) != 0;
+    try { src.save(scratch_file, ws); } catch (Error &) { return "save-err"; }
+    dst.load(scratch_file, ws, *dev);
+    return "ok";
+  }
+  if (f == "pv") {
+    std::string o = "ok [";
+    for (unsigned i = 0; i < params.size(); ++i) {
+      if (i) o += ',';
+      if (!params[i]->valid()) o += '-';
+      else o += std::to_string(static_cast<long>(params[i]->value().to_vector().at(0)));
+    }
+    return o + "]";
   }
   return "badcase";
 }
 
 int main() {
+  const char *tmp = std::getenv("PV_REG_TMP");
+  scratch_file = std::string(tmp ? tmp : "/var/tmp") + "/reg_drv." + std::to_string(static_cast<long>(getpid())) + ".model";
   devices::Naive d;
   dev = &d;
   Device::set_default(d);
@@ -178,5 +206,6 @@ int main() {
   }
   std::cout.flush();
   opts.clear(); models.clear(); params.clear();
+  std::remove(scratch_file.c_str());
   return 0;
 }
